@@ -74,7 +74,11 @@ def in_scope(prop, b):
             return True
         if why == "draw reported too early":
             return b.get("x", {}).get("seen", 0) >= 2 and b.get("x", {}).get("hm", 0) < 100
-        return "seen" in d and ev in ("Apply", "Undo", "Toggle")
+        if "seen" in d and ev in ("Apply", "Undo", "Toggle"):
+            return True
+        # recurrences are counted per (placement, side, rights, ep target): if the engine's own idea of these
+        # components is wrong after a move, its counts cannot be the number of true recurrences either
+        return ev in ("Apply", "Undo") and bool(d & {"placement", "cr", "ep"})
     return False
 
 
